@@ -17,3 +17,29 @@ package resolver
 //@   safety
 //@   requires doc != nil
 //@   loop 1 invariant true
+
+// ---- C18: routing and chaining ----
+
+//@ func (*sync.Map).Load
+//@   trusted
+//@   benign
+//@ func (DIDResolver).Resolve
+//@   trusted
+//@   benign
+
+// The resolver registered for the DID's own method decides, on exactly this DID and metadata.
+//@ func (*DIDResolverRouter).Resolve
+//@   prop C18
+//@   ensures [delegates-to-the-resolver-of-the-dids-method] isNilIface(result.2) ==> did(call (*sync.Map).Load #1) && ret(call (*sync.Map).Load #1).1 == true
+//@        && arg(call (*sync.Map).Load #1, 1) == any(id.Method)
+//@        && did(call (DIDResolver).Resolve #1) && same(arg(call (DIDResolver).Resolve #1, 1), id) && arg(call (DIDResolver).Resolve #1, 2) == metadata
+//@        && result.0 == ret(call (DIDResolver).Resolve #1).0 && isNilIface(ret(call (DIDResolver).Resolve #1).2)
+
+// A later resolver of the chain (the network) is asked only after every earlier one (local storage)
+// answered "not found"; any other answer of an earlier resolver - a document, "deactivated" - is final.
+//@ func (ChainedDIDResolver).Resolve
+//@   prop C18
+//@   loop 1 invariant !did(call (DIDResolver).Resolve #1) || (!isNilIface(ret(call (DIDResolver).Resolve #1).2) && ret(call errors.Is #1) == true)
+//@   call (DIDResolver).Resolve #1 requires [in-chain-order-for-this-did] same(arg(1), id) && arg(0) == c.Resolvers[$i-1]
+//@   ensures [first-answer-is-final] isNilIface(result.2) ==> did(call (DIDResolver).Resolve #1) && isNilIface(ret(call (DIDResolver).Resolve #1).2) && result.0 == ret(call (DIDResolver).Resolve #1).0
+//@   ensures [other-errors-are-final] did(call (DIDResolver).Resolve #1) && !isNilIface(ret(call (DIDResolver).Resolve #1).2) && ret(call errors.Is #1) == false ==> !isNilIface(result.2)
